@@ -49,6 +49,8 @@ pub fn pre_wake(fd: i32, is_send: bool) {
         return;
     }
     sim::sp(sim::EV_WAKE, 0);
+    sim::count(sim::C_WAKE_CALLS, 1);
+    sim::note_wake_call();
     sim::ev_pipe_release();
     unsafe {
         let mut p = libc::pollfd { fd, events: libc::POLLOUT, revents: 0 };
